@@ -181,9 +181,6 @@ func (p Pair) Features() []string {
 			for _, c := range t.Cols {
 				if t.InPK(c.Name) {
 					inOrder = append(inOrder, c.Name)
-					if c.Null {
-						f["pk-nullable"] = true
-					}
 				}
 				switch {
 				case c.Default != nil && c.Default.Kind == "expr":
@@ -593,4 +590,45 @@ func AppendOnly(a, b Schema) bool {
 		}
 	}
 	return true
+}
+
+// FeaturesExt is Features plus features added later ("pk-nullable": a primary-key column is declared
+// nullable; "column-order-differs": a table present on both sides lists its shared columns in a
+// different order). They are kept out of Features so that finding keys other monitors already
+// recorded do not change.
+func (p Pair) FeaturesExt() []string {
+	f := map[string]bool{}
+	for _, s := range []Schema{p.A, p.B} {
+		for _, t := range s.Tables {
+			for _, c := range t.Cols {
+				if t.InPK(c.Name) && c.Null {
+					f["pk-nullable"] = true
+				}
+			}
+		}
+	}
+	for _, ta := range p.A.Tables {
+		if tb := p.B.Table(ta.Name); tb != nil {
+			var ca, cb []string
+			for _, c := range ta.Cols {
+				if tb.Col(c.Name) != nil {
+					ca = append(ca, c.Name)
+				}
+			}
+			for _, c := range tb.Cols {
+				if ta.Col(c.Name) != nil {
+					cb = append(cb, c.Name)
+				}
+			}
+			if !slices.Equal(ca, cb) {
+				f["column-order-differs"] = true
+			}
+		}
+	}
+	out := p.Features()
+	for k := range f {
+		out = append(out, k)
+	}
+	sort.Strings(out)
+	return out
 }
